@@ -307,7 +307,8 @@ def rule_native_record(ctx):
     if len(stores) != 1:
         raise AnalysisError('member store not found in %s' % f.short)
     deps = [(b, lab) for b, lab in _tdeps(cfg, stores[0]) if b.kind == 'test']
-    member = [(b, lab) for b, lab in deps if ('in pyObject' in norm(b.ast.test))]
+    import re
+    member = [(b, lab) for b, lab in deps if re.fullmatch(r'\w+ (not )?in pyObject', norm(b.ast.test))]
     other = [(b, lab) for b, lab in deps if (b, lab) not in member]
     ctx.ob('C17.native', f, 'a member present in the mapping is always decoded and stored', bool(member) and not other,
            'the store also depends on %s: members present in the Python mapping can be dropped' % [norm(b.ast.test) for b, l in other]
